@@ -1,6 +1,8 @@
 package an
 
 import (
+	"go/token"
+
 	"golang.org/x/tools/go/ssa"
 )
 
@@ -140,3 +142,57 @@ func singleModuleCallee(p *Prog, call *ssa.Call) *ssa.Function {
 }
 
 
+
+// ParamDeps computes which parameters of its function the value v depends on
+// by data flow: operands are followed backwards through every instruction
+// (calls included: a result depends on all arguments), except that what is
+// loaded from an object the function allocated itself is not followed (the
+// rules that use this ask where *new* data comes from).
+func ParamDeps(v ssa.Value) map[*ssa.Parameter]bool {
+	out := map[*ssa.Parameter]bool{}
+	seen := map[ssa.Value]bool{}
+	var walk func(v ssa.Value, depth int)
+	walk = func(v ssa.Value, depth int) {
+		if v == nil || seen[v] || depth > 40 {
+			return
+		}
+		seen[v] = true
+		switch x := v.(type) {
+		case *ssa.Parameter:
+			out[x] = true
+			return
+		case *ssa.Alloc, *ssa.Const, *ssa.Global, *ssa.Function, *ssa.Builtin, *ssa.FreeVar, *ssa.MakeMap, *ssa.MakeSlice, *ssa.MakeChan:
+			return
+		case *ssa.UnOp:
+			if x.Op == token.MUL {
+				if fa, ok := x.X.(*ssa.FieldAddr); ok {
+					if fresh, _ := FreshBase(fa.X); fresh {
+						return
+					}
+				}
+				if a, ok := x.X.(*ssa.Alloc); ok {
+					// a local cell: what was stored into it
+					if refs := a.Referrers(); refs != nil {
+						for _, r := range *refs {
+							if st, ok := r.(*ssa.Store); ok && st.Addr == ssa.Value(a) {
+								walk(st.Val, depth+1)
+							}
+						}
+					}
+					return
+				}
+			}
+		}
+		in, ok := v.(ssa.Instruction)
+		if !ok {
+			return
+		}
+		for _, op := range in.Operands(nil) {
+			if *op != nil {
+				walk(*op, depth+1)
+			}
+		}
+	}
+	walk(v, 0)
+	return out
+}
